@@ -422,6 +422,11 @@ impl ArrayToBytesCodecTraits for PackBitsCodec {
         let element_size_bits = component_size_bits_extracted * num_components;
         let elements_size_bytes = (num_elements * element_size_bits).div_ceil(8);
 
+        // The bytes codec fast path of `encode` writes no padding byte
+        if component_size_bits % 8 == 0 && first_bit == 0 && last_bit == component_size_bits - 1 {
+            return Ok(BytesRepresentation::FixedSize(elements_size_bytes));
+        }
+
         let padding_encoding_byte = match self.padding_encoding {
             PackBitsPaddingEncoding::None => 0,
             PackBitsPaddingEncoding::FirstByte | PackBitsPaddingEncoding::LastByte => 1,
